@@ -602,6 +602,31 @@ fn expr_attrs(e: &syn::Expr) -> &[syn::Attribute] {
     }
 }
 
+/// R14: `fn f(mut self, ..) { B }` -> `fn f(self, ..) { let mut vx_self = self; B[self := vx_self] }` (Verus rejects `mut self`)
+struct SelfRenamer;
+impl VisitMut for SelfRenamer {
+    fn visit_expr_path_mut(&mut self, p: &mut syn::ExprPath) {
+        if p.qself.is_none() && p.path.is_ident("self") {
+            p.path = syn::parse_quote!(vx_self);
+        }
+    }
+    fn visit_item_mut(&mut self, _i: &mut syn::Item) {}
+}
+fn rewrite_mut_self(sig: &mut syn::Signature, block: &mut syn::Block) -> bool {
+    let mut hit = false;
+    if let Some(syn::FnArg::Receiver(r)) = sig.inputs.first_mut() {
+        if r.reference.is_none() && r.mutability.is_some() {
+            r.mutability = None;
+            hit = true;
+        }
+    }
+    if hit {
+        SelfRenamer.visit_block_mut(block);
+        block.stmts.insert(0, syn::parse_quote!(let mut vx_self = self;));
+    }
+    hit
+}
+
 // ---------------------------------------------------------------- contract insertion (R5, R6, R10)
 
 /// Numbers loops in source order (pre-order), attaches `#[vx_loop_<fn>_<k>]`, inserts proof
@@ -829,6 +854,9 @@ fn process_fn_common(
         rules: BTreeSet::new(),
     };
     if let Some(b) = block {
+        if !external_body && rewrite_mut_self(sig, b) {
+            rules.insert("R14".into());
+        }
         if external_body {
             *b = syn::parse_quote!({ unimplemented!() });
         } else {
